@@ -765,7 +765,7 @@ def unextract(trees):
                                                                                                    and isinstance(val.func.value, ast.Name))
                                                    or (not is_method and site_tree is not tree and isinstance(val.func, ast.Attribute)
                                                        and isinstance(val.func.value, ast.Name))):
-                                    if is_method and not (isinstance(val.func, ast.Attribute) and val.func.value.id in ("self", "cls", qual.split(".")[0])):
+                                    if is_method and not (isinstance(val.func, ast.Attribute) and isinstance(val.func.value, ast.Name) and val.func.value.id in ("self", "cls", qual.split(".")[0])):
                                         continue
                                     if any(x is st for x in ast.walk(fn)):
                                         continue  # the call must sit outside the helper itself
